@@ -14,7 +14,7 @@ RULE = ("histories of Timeline(...), add, remove/discard, update/|=, union/|, co
         "and non-members, ==, !=, timeline-in-timeline): every add/remove history of length <=3 (quick) / <=4 "
         "(thorough) over six segments of the grid 0..3 read back after every step, plus random histories of 5-40 "
         "operations with a read after a write with probability 1/2, regimes K0/K4/K1; pairs of timelines with the same "
-        "starts and the same ends paired differently (built directly or reached by edits) compared both ways; non-trivial = at least "
+        "starts and the same ends paired differently (built directly or reached by edits) compared both ways; constructor input as list / generator / set / tuple by turns, the caller's container also feeding a twin timeline that is edited at once and never changing under timeline edits; non-trivial = at least "
         "one removal of a present segment or an update/union, and at least two reads")
 
 
